@@ -264,6 +264,7 @@ def opPP (st : St α) (id op : String) : P (St α × List String) := do
 the default-constructed one `T = 2τ + 1/2` -/
 def tmOf (ty inst : Nat) : TimeMap α :=
   if ty == 0 then quadInvTimeMap Scalar.sqrt else if ty == 1 then identityTimeMap
+  else if ty == 3 then (if inst == 1 then recipTimeMap (litq 1 8) (lit 1) else recipTimeMap (litq 1 4) (litq 1 2))
   else if inst == 1 then affineTimeMap (litq 1 2) (litq 1 4) else affineTimeMap (lit 2) (litq 1 2)
 
 /-- spatial map of (type, instance): user instance 1 constrains even point indices, default / instance 2 odd ones -/
